@@ -1,7 +1,8 @@
 SPECIFICATION Spec
-CONSTANTS MaxN = 3 MaxIter = 3 StrictA = FALSE GenMod = 1
+CONSTANTS MaxN = 5 MaxIter = 3 StrictA = TRUE GenMod = 149
   AsIs_UnconditionalUnshuffle = FALSE Mut_NoReshuffle = FALSE Mut_FeedUnlabeled = FALSE Mut_InverseMixup = FALSE
 CONSTANT Thresholds <- ThrAll
 CONSTANT ShuffleVals <- BothB
 INVARIANT EmitCase
+CONSTRAINT GenKeep
 CHECK_DEADLOCK FALSE
